@@ -275,8 +275,9 @@ struct OpsCase {
 		if (k < 40) { n = circuit.createNode<hlim::Node_Signal>(); kn = "S"; }
 		else if (k < 65) { n = circuit.createNode<XNode>(rng.below(4), rng.below(3) + (rng.chance(3, 4) ? 1 : 0)); kn = "X"; }
 		else if (k < 75) { n = circuit.createNode<hlim::Node_Register>(); kn = "R"; }
-		else if (k < 81) { n = circuit.createNode<hlim::Node_Multiplexer>(1 + rng.below(3)); kn = "M"; }
-		else if (k < 85) { n = circuit.createNode<hlim::Node_Logic>(hlim::Node_Logic::AND); kn = "L"; }
+		else if (k < 78) { n = circuit.createNode<hlim::Node_Multiplexer>(1 + rng.below(3)); kn = "M"; }
+		else if (k < 81) { n = circuit.createNode<hlim::Node_Logic>(hlim::Node_Logic::AND); kn = "L"; }
+		else if (k < 85) { n = circuit.createNode<hlim::Node_Arithmetic>(hlim::Node_Arithmetic::ADD, 2 + rng.below(2)); kn = "A"; }
 		else if (k < 88) { n = circuit.createNode<hlim::Node_Signal2Clk>(); kn = "K"; }
 		else if (k < 91) { n = circuit.createNode<hlim::Node_Signal2Rst>(); kn = "Z"; }
 		else if (k < 94) { n = circuit.createNode<hlim::Node_Rewire>(1 + rng.below(3)); kn = "W"; }
@@ -367,6 +368,17 @@ struct OpsCase {
 			if (n->getNumInputPorts() == 0) { newNode(); return; }
 			size_t i = rng.below(n->getNumInputPorts());
 			NodePort d; std::string ds;
+			// nodes whose output type follows their operands: the typed connectInput (NodeIO::connectInput + updateConnectionType). With
+			// consumers attached a wider / differently typed operand must be refused (exception) - the operand is connected nevertheless.
+			auto *arith = dynamic_cast<hlim::Node_Arithmetic*>(n);
+			auto *logic = dynamic_cast<hlim::Node_Logic*>(n);
+			if ((arith || logic) && rng.chance(3, 4)) {
+				ds = target(true, d);
+				exec("tconnect " + std::string(arith ? "1 " : "2 ") + hs + " " + std::to_string(i) + " " + ds, [&] {
+					if (arith) arith->connectInput(i, d); else logic->connectInput(i, d);
+				});
+				return;
+			}
 			if (rng.chance(1, 6) && n->getNumOutputPorts() > 0) { d = {.node = n, .port = rng.below(n->getNumOutputPorts())}; ds = hs + "." + std::to_string(d.port); } // self loop
 			else ds = target(true, d);
 			exec("connect " + hs + " " + std::to_string(i) + " " + ds, [&] { n->rewireInput(i, d); });
